@@ -571,7 +571,10 @@ func execC10(c Case) (res evid.Result) {
 			cls["more-than-400-fragments:not-reassembled"] = true
 			continue
 		}
-		multiOK := c.RxLocal && m.Kind == "D" && len(m.OutTok) != 6 // producer Data goes to every thread with a matching prefix
+		// Data without a PIT token in this forwarder's format goes to every thread holding one of
+		// its prefixes, once each (dispatch policy of the link service; since the C01 repair of
+		// token-less Data dispatch this holds for non-local receivers as well)
+		multiOK := m.Kind == "D" && len(m.OutTok) != 6
 		if len(got) == 0 {
 			for k, d := range sink {
 				if !used[k] && len(d.raw) == len(msgs[i].wire) {
